@@ -264,11 +264,17 @@ static void explore(Twin& t, const std::string& hist, int depth, int fd, unsigne
         if (ev[0] == 'I' && t.n.height() <= t.base_height) continue;
         if (ev[0] == 'R' && t.invalidated.empty()) continue;
         const std::string h2 = hist + ev;
+        // wall-clock budget: stop between complete first-level subtrees; the parent then compares the common part only
+        if (hist.empty() && vx::elapsed() > vx::ctx().deadline_s * 0.8) { put(fd, "#CUT\t-\t0\t0"); break; }
+        const double tf0 = vx::elapsed();
         pid_t p = fork();
+        if (p != 0 && getenv("VERIF_C13_PROF")) fprintf(stderr, "fork %.4f\n", vx::elapsed() - tf0);
         if (p == 0) {
             // siblings that run concurrently must not share block/undo files
             if (par > 1) t.n.RepointBlocksDir(t.n.BlocksDir() / fs::PathFromString("w" + std::to_string(getpid())));
+            const double ta0 = vx::elapsed();
             std::string out = t.apply(ev);
+            if (getenv("VERIF_C13_PROF")) fprintf(stderr, "apply %s %.4f\n", ev.c_str(), vx::elapsed() - ta0);
             put(fd, h2 + "\t" + out);
             if (depth > 1) explore(t, h2, depth - 1, fd, 1);
             _exit(0);
@@ -430,6 +436,12 @@ int main(int argc, char** argv)
             return m;
         };
         auto A = load(fa), B = load(fb);
+        if (A.count("#CUT") || B.count("#CUT")) {
+            exhaustive = false;
+            A.erase("#CUT"); B.erase("#CUT");
+            for (auto it = A.begin(); it != A.end();) it = B.count(it->first) ? std::next(it) : A.erase(it);
+            for (auto it = B.begin(); it != B.end();) it = A.count(it->first) ? std::next(it) : B.erase(it);
+        }
         if (A.size() != B.size() || A.empty()) { printf("HARNESS-ERROR twins explored different history sets (%zu vs %zu) %s\n", A.size(), B.size(), dir.c_str()); if (!getenv("VERIF_C13_KEEP")) { std::error_code ec; std::filesystem::remove_all(dir, ec); } return 2; }
         for (auto& [h, a] : A) {
             auto it = B.find(h);
